@@ -129,7 +129,7 @@ class Block(object):
             self.check_merkle_hash()
 
     def as_blockheader(self) -> Block:
-        return Block(
+        return self.__class__(
             self.version,
             self.previous_block_hash,
             self.merkle_root,
